@@ -5,6 +5,7 @@
   acceptance).  Input: a *universe* of Go struct declarations with their raw tag strings.
 -/
 import Frugal.Schema
+import Frugal.BuildCache
 namespace Frugal
 
 inductive GoKind
@@ -403,19 +404,11 @@ def Ty.structRefs : Ty → List Nat
 /-- all structs resolved independently; `none` marks a rejected definition -/
 def resolveAll (U : Universe) : List (Option SDesc) := U.map resolveStruct
 
-def reachOk (R : List (Option SDesc)) : Nat → List Nat → List Nat → Bool
-  | 0, _, _ => true
-  | _, [], _ => true
-  | fuel + 1, sid :: todo, seen =>
-    if seen.contains sid then reachOk R fuel todo seen else
-    match R.getD sid none with
-    | none => false
-    | some sd => reachOk R fuel (sd.fields.flatMap (·.ty.structRefs) ++ todo) (sid :: seen)
-
-/-- is struct `sid` accepted by frugal (every struct reachable from it resolves)? -/
+/-- is struct `sid` accepted by frugal?  The outcome of its first use in a fresh process
+    (`BuildCache.useType`); `Proofs/BuildCacheLemmas.lean` shows that this is "every struct
+    reachable from it resolves" and that every later use, after any history, gives the same. -/
 def accepted (U : Universe) (sid : Nat) : Bool :=
-  let R := resolveAll U
-  reachOk R (U.length * U.length + U.length + 1) [sid] []
+  (useType (resolveAll U) sid {}).1
 
 /-- the schema used by the codec model: rejected structs become empty descriptors (never used
     for an accepted type) -/
